@@ -50,9 +50,12 @@ class FileH:
 
 
 class CsvR:
+    """csv.reader: an iterator over the rows of the file (position kept between reads)"""
+
     def __init__(self, h: FileH, opts: dict):
         self.h = h
         self.opts = opts
+        self.pos = 0
 
 
 class CsvW:
@@ -456,7 +459,10 @@ class FSInterp(ResultInterp):
     def iterate(self, it, node):
         if isinstance(it, CsvR):
             self.fslog("read-rows", it.h.path)
-            return [list(r) for r in self.root.fs.files.get(it.h.path, [])]
+            rows = [list(r) for r in self.root.fs.files.get(it.h.path, [])]
+            rest = rows[it.pos :]
+            it.pos = len(rows)
+            return rest
         if isinstance(it, FileH) and "r" in str(it.mode) and it.path in self.root.fs.files:
             # the file is parsed by hand, line by line: recorded (the rows of the abstract file
             # system are csv rows; a hand parser sees their unquoted text only)
@@ -474,6 +480,16 @@ class FSInterp(ResultInterp):
         return super().isinstance_hook(v, klass, node)
 
     def call_builtin(self, name, args, kwargs, node):
+        if name == "next" and 1 <= len(args) <= 2 and isinstance(args[0], CsvR):
+            rd = args[0]
+            rows = self.root.fs.files.get(rd.h.path, [])
+            self.fslog("read-rows", rd.h.path)
+            if rd.pos < len(rows):
+                rd.pos += 1
+                return list(rows[rd.pos - 1])
+            if len(args) == 2:
+                return args[1]
+            raise RaiseSignal("StopIteration", node)
         if name == "str" and args and isinstance(args[0], PathV):
             return args[0].s
         if name == "open":
